@@ -32,6 +32,7 @@ Oracle (three-valued):
 import array
 import hashlib
 import io
+import json
 import os
 import subprocess
 import sys
@@ -42,7 +43,7 @@ import gemato.verify as gverify
 
 from gverif import gem, refmanifest as rm
 from gverif.common import fresh_root, rot
-from gverif.evidence import Stats
+from gverif.evidence import Stats, digest, jsonable
 
 PID = 'C17'
 LEVEL = 'exploration'
@@ -57,8 +58,11 @@ RULE = ('every content length in 0..300, 65534..65538, 131070..131074, 1048574..
         '+-2 (thorough +-8) of 8192, 65536, 131072, 1 MiB (2 MiB) and at 1, 2, n/2, n-2, n-1; the file object '
         'is io.BufferedReader over a scripted RawIOBase (group name sets also with a pre-filled buffer via '
         'peek()); plus real files of every length through hash_path, get_file_metadata and `gemato hash`. '
-        'Quick tier: at n >= 1 MiB the 1/2/3/7-byte schedules use one hash per kind (+__size__) instead of '
-        'the full groups, and single-name sets use the schedules whole/4096/65536 only. '
+        'Quick tier reductions: at n >= 1 MiB the 1-byte schedule runs one hashlib name (+__size__) under every '
+        'hint, the 2- and 3-byte schedules one name under hints {0, n}, the 7-byte schedule one name per kind '
+        '(+ `gemato hash -`) under every hint, instead of the full group name sets; for n > 300 single-name sets '
+        'use the schedules whole/4096/65536 only and the peek() variant runs under hints {0, n} only (thorough: '
+        'no reduction). '
         'A case = (entry point, n, name set, hint, schedule, peek); distinct by that tuple; non-trivial = '
         'n > 0 and the reference verdict is definite (digest or unsupported, not DONT_CARE)')
 ASSUMPTIONS = [
@@ -500,6 +504,27 @@ def make_case(entry, seed, L, kind, names, hint=None, sched=None, peek=0, repeat
     return c
 
 
+_REGISTRY = None        # directory shared by the workers of one run (created by setup())
+REPORTS_PER_SIG = 3
+
+
+def claim(sigkey):
+    """Stats keeps the first 40 violations of a shard and the runner the first 160 of a run,
+    whatever their signature; so that every *distinct* signature reaches the runner, at most
+    REPORTS_PER_SIG witnesses per signature are reported per run (first come, first served
+    through O_EXCL marker files); the rest are only counted in counters['violations_raw']."""
+    if _REGISTRY is None:
+        return True
+    name = digest(sigkey).hex()
+    for i in range(REPORTS_PER_SIG):
+        try:
+            os.close(os.open(os.path.join(_REGISTRY, f'{name}.{i}'), os.O_CREAT | os.O_EXCL | os.O_WRONLY))
+            return True
+        except FileExistsError:
+            continue
+    return False
+
+
 class Ctx:
     """Per-shard state shared by the case runners."""
 
@@ -508,6 +533,7 @@ class Ctx:
         self.seed = seed
         self.scratch = scratch
         self.max_slurp = ghash.MAX_SLURP_SIZE
+        self.seen_sigs = set()
 
     def record(self, entry, L, kind, names, what, got, viols, case_fn, desc):
         st = self.stats
@@ -520,8 +546,13 @@ class Ctx:
         st.case(desc, nontrivial=(L > 0 and what != 'dontcare'))
         st.outcomes[f'{entry}/{what}/{got if what != "digest" or viols or got != "ret" else "ok"}'] += 1
         if viols:
-            case = case_fn()
+            case = None
             for sig, msg in viols:
+                key = json.dumps(jsonable(sig), sort_keys=True)
+                if key in self.seen_sigs or (self.seen_sigs.add(key) or not claim(key)):
+                    st.counters['violations_raw'] += 1
+                    continue
+                case = case or case_fn()
                 st.violation(sig, case, f'{msg} [case {describe(case)}]')
 
     def scripted(self, entry, L, data, kind, names, hint, sched, peek=0):
@@ -631,6 +662,7 @@ def run_large(spec, tier, seed, ctx):
     hint = hints_for(L)[hi]
     light = light_schedules(L, tier)
     single = set(single_schedules(L, tier))
+    with_peek = tier != 'quick' or hint in (0, L)
     if hi == 0:
         ctx.stats.counters['lengths_scripted'] += 1
         ctx.stats.counters['short_read_positions'] += sum(1 for s in light if s[0].startswith('short@'))
@@ -640,7 +672,7 @@ def run_large(spec, tier, seed, ctx):
                 continue
             entry = _entry_for(kind)
             ctx.scripted(entry, L, data, kind, names, hint, sched)
-            if group:
+            if group and with_peek:
                 ctx.scripted(entry, L, data, kind, names, hint, sched, peek=1)
         if hi == 0:
             for kind, names, _g in _cli_sets(sets, sched in single):
@@ -648,25 +680,26 @@ def run_large(spec, tier, seed, ctx):
 
 
 def run_heavy(spec, tier, seed, ctx):
-    """1/2/3/7-byte schedules on the threshold-sized contents."""
-    _t, L, ks, his = spec
+    """1/2/3/7-byte schedules on the threshold-sized contents.
+
+    mode 'full': every group name set (+ cli_stdin); 'both': one hash per kind (+ cli_stdin);
+    'one': a single hashlib name.  The reduced modes exist only in the quick tier at >= 1 MiB."""
+    _t, L, k, his, mode = spec
     data = pattern(seed, L)
-    full = [s for s in rot(namesets(), seed) if s[2]]
-    if tier == 'quick' and L >= ghash.MAX_SLURP_SIZE - 2:
-        sets = reduced_namesets()
-        ctx.stats.counters['heavy_schedule_reduced_name_sets'] += 1
+    if mode == 'full':
+        sets = [s for s in rot(namesets(), seed) if s[2]]
     else:
-        sets = full
+        sets = reduced_namesets() if mode == 'both' else reduced_namesets()[1:]
+        ctx.stats.counters['heavy_schedule_shards_with_reduced_name_sets'] += 1
     hints = hints_for(L)
-    for k in ks:
-        sched = (f'step{k}', k, ())
-        for hi in his:
+    sched = (f'step{k}', k, ())
+    for hi in his:
+        for kind, names, _g in sets:
+            ctx.scripted(_entry_for(kind), L, data, kind, names, hints[hi], sched)
+        if hi == 0 and mode != 'one':
             for kind, names, _g in sets:
-                ctx.scripted(_entry_for(kind), L, data, kind, names, hints[hi], sched)
-            if hi == 0:
-                for kind, names, _g in sets:
-                    if kind == 'manifest':
-                        ctx.scripted('cli_stdin', L, data, kind, names, 0, sched)
+                if kind == 'manifest':
+                    ctx.scripted('cli_stdin', L, data, kind, names, 0, sched)
 
 
 def _real_cases(ctx, L, data, path, sets, coreutils=None):
@@ -733,7 +766,7 @@ RUNNERS = {'S': run_small, 'L': run_large, 'K': run_heavy, 'R': run_real, 'RL': 
 def _cost(spec):
     t = spec[0]
     if t == 'K':
-        return spec[1] * sum(1.0 / k for k in spec[2]) * len(spec[3]) * 4
+        return spec[1] / spec[2] * len(spec[3]) * {'full': 8, 'both': 3, 'one': 1.5}[spec[4]]
     if t == 'L':
         return spec[1] * 30
     if t == 'RL':
@@ -754,21 +787,29 @@ def shards(tier, seed):
         nh = len(hints_for(L))
         out += [('L', L, hi) for hi in range(nh)]
         out.append(('RL', L))
+        allh = tuple(range(nh))
         if L < 1000000:
-            out.append(('K', L, STEPS_HEAVY, tuple(range(nh))))
+            out += [('K', L, k, allh, 'full') for k in STEPS_HEAVY]
+        elif tier == 'quick':
+            # 1 MiB in 1-byte reads costs ~1 s per execution: one hashlib name under every hint for k=1,
+            # hints {0, n} for k=2,3, one name per kind (+ cli_stdin) under every hint for k=7
+            true_hint = hints_for(L).index(L)
+            out += [('K', L, 1, (hi,), 'one') for hi in allh]
+            out += [('K', L, 2, (0, true_hint), 'one'), ('K', L, 3, (0, true_hint), 'one'),
+                    ('K', L, 7, allh, 'both')]
         else:
-            for k in STEPS_HEAVY:
-                if k == 1:
-                    out += [('K', L, (k,), (hi,)) for hi in range(nh)]
-                else:
-                    out.append(('K', L, (k,), tuple(range(nh))))
+            out += [('K', L, k, (hi,), 'full') for k in (1, 2) for hi in allh]
+            out += [('K', L, k, allh, 'full') for k in (3, 7)]
     out.sort(key=_cost, reverse=True)
     return out
 
 
 def setup(tier, seed, base):
+    global _REGISTRY
     pattern(seed, 1 << 21)           # built once in the parent, inherited by the forked workers
     hashlib_accepted()
+    _REGISTRY = os.path.join(base, 'c17-reported-signatures')
+    os.makedirs(_REGISTRY, exist_ok=True)
 
 
 def run_shard(spec, tier, seed, scratch):
